@@ -44,6 +44,36 @@ func init() {
 		}
 		fmt.Fprintf(b, "/-- internal/streams/websockettunnel_connection.go Read: `true` iff no branch testing `len(p)` returns an error,\n    i.e. a message longer than the caller's buffer is not rejected (its tail is kept for the next Read) -/\ndef wsReadKeepsTail : Bool := %v\n\n", !rejects)
 
+		// --- MuxStreamConnection: io.Copy prefers a source's WriteTo (and a destination's ReadFrom) over Read/Write, so a
+		// method of that name on the wrapper takes the data path around its Read (the retry after a spurious EOF)
+		{
+			mf := parse("internal/streams/muxstream_connection.go")
+			var fast []string
+			hasRead := false
+			if mf != nil {
+				for _, d := range mf.Decls {
+					fd, ok := d.(*ast.FuncDecl)
+					if !ok || fd.Recv == nil || len(fd.Recv.List) != 1 || !strings.HasSuffix(src(fd.Recv.List[0].Type), "MuxStreamConnection") {
+						continue
+					}
+					switch fd.Name.Name {
+					case "WriteTo", "ReadFrom":
+						fast = append(fast, fd.Name.Name)
+					case "Read":
+						hasRead = true
+					}
+				}
+			}
+			if !hasRead {
+				fail("muxstream_connection.go: MuxStreamConnection.Read not found")
+			}
+			q := make([]string, len(fast))
+			for i, x := range fast {
+				q[i] = fmt.Sprintf("%q", x)
+			}
+			fmt.Fprintf(b, "/-- internal/streams/muxstream_connection.go: methods of MuxStreamConnection that io.Copy would use instead of its Read/Write -/\ndef muxStreamFastPaths : List String := [%s]\n\n", strings.Join(q, ", "))
+		}
+
 		// --- smux MaxFrameSize on both ends
 		bufEnv := fileConsts(parse("internal/util/buffers/buffer.go"), nil)
 		en := env{"buffers.BufferSize": bufEnv["BufferSize"]}
